@@ -29,6 +29,7 @@ func TestVerif(t *testing.T) {
 func init() {
 	vRegistry["c13_occurrence"] = c13Occurrence
 	vRegistry["c13_addvalue"] = c13AddValue
+	vRegistry["c13_history"] = c13History
 }
 
 // underSched runs f as thread 0 of a controlled execution with the default
@@ -471,6 +472,108 @@ func c13AddValue(c *vrep.Ctx) {
 		}
 		if m := r.Note["msg"].(string); m != "" {
 			c.Violate(fmt.Sprintf("c13_addvalue:%q", v), fmt.Sprintf("value %q: %s", v, m), r, m)
+		}
+	})
+}
+
+// c13History: every sequence of up to three NearestMatch / MultipleMatch calls on ONE classifier;
+// each call must return exactly what the same call returns on a fresh classifier with the same
+// values (nothing of an earlier query may survive into a later one), and the C13 range conditions.
+func c13History(c *vrep.Ctx) {
+	if !instrumented() {
+		panic("c13 needs the v1 instrumentation profile")
+	}
+	one := "the quick brown fox jumps over the lazy dog and runs far away from the angry farmer today"
+	two := "the quick brown fox jumps over the lazy cat and runs far away from the angry farmer tonight"
+	three := "lorem ipsum dolor"
+	vals := [][2]string{{"one", one}, {"two", two}, {"three", three}}
+	unknowns := []string{
+		one,
+		strings.Replace(one, "jumps", "leaps", 1),
+		"x y " + strings.Replace(two, "brown", "red", 1) + " and so on and so forth for quite a while longer",
+		three + " y",
+		"nothing of the kind",
+		strings.Replace(one, "lazy dog", "lazy", 1) + " " + three,
+	}
+	maxOps := c.Pick(3, 4)
+	ts := []float64{0.5, 0.8}
+	mk := func(t float64) *Classifier {
+		cl := New(t, FlattenWhitespace)
+		for _, v := range vals {
+			if err := cl.AddValue(v[0], v[1]); err != nil {
+				panic(err)
+			}
+		}
+		return cl
+	}
+	run := func(cl *Classifier, op int) string {
+		u := unknowns[op/2]
+		var out string
+		p, d := underSched(func() {
+			if op%2 == 0 {
+				if m := cl.NearestMatch(u); m != nil {
+					out = fmt.Sprintf("NM %+v", *m)
+				} else {
+					out = "NM nil"
+				}
+			} else {
+				ms := cl.MultipleMatch(u)
+				out = "MM"
+				for _, m := range ms {
+					out += fmt.Sprintf(" %+v", *m)
+				}
+				if e := checkMatches(ms, cl.normalize(u), cl.threshold); e != "" {
+					out += " RANGE: " + e
+				}
+			}
+		})
+		if p != "" || d != "" {
+			return fmt.Sprintf("panic=%q deadlock=%q", p, d)
+		}
+		return out
+	}
+	nops := 2 * len(unknowns)
+	fresh := map[string]string{}
+	for ti, t := range ts {
+		for op := 0; op < nops; op++ {
+			fresh[fmt.Sprint(ti, op)] = run(mk(t), op)
+		}
+	}
+	c.R.Rule = fmt.Sprintf("ALL sequences of 1..%d calls from {NearestMatch, MultipleMatch} x %d unknown texts (exact value, near values of similar and of greater length, a short value with context, unrelated text, two values in one text) on ONE classifier with three values (two of them similar) x thresholds %v: every call returns exactly what it returns on a fresh classifier, and every Offset/Extent lies inside its own normalised unknown; non-trivial = distinct sequences", maxOps, len(unknowns), ts)
+	c.Bound("max_calls", maxOps)
+	body := func(r *vx.Run) {
+		ti := r.Choose(len(ts), "threshold")
+		n := 1 + r.Choose(maxOps, "len")
+		ops := make([]int, n)
+		for i := range ops {
+			ops[i] = r.Choose(nops, "op")
+		}
+		if r.Scout() {
+			return
+		}
+		cl := mk(ts[ti])
+		msg := ""
+		for i, op := range ops {
+			got := run(cl, op)
+			if strings.Contains(got, " RANGE: ") || strings.HasPrefix(got, "panic=") {
+				msg = fmt.Sprintf("call %d: %s", i, got)
+				break
+			}
+			if want := fresh[fmt.Sprint(ti, op)]; got != want {
+				msg = fmt.Sprintf("call %d returns %s but on a fresh classifier %s", i, got, want)
+				break
+			}
+		}
+		r.Note = map[string]interface{}{"id": fmt.Sprintf("T%v:%v", ts[ti], ops), "msg": msg}
+	}
+	c.Run(vSplitExplorer(c, 0, 3), body, func(r *vx.Run) {
+		c.R.Nontrivial++
+		id := r.Note["id"].(string)
+		if c.R.Nontrivial%200 == 1 {
+			c.Sample(id)
+		}
+		if m := r.Note["msg"].(string); m != "" {
+			c.Violate("c13_history:"+id, fmt.Sprintf("calls %s (op 2i = NearestMatch(unknown i), 2i+1 = MultipleMatch(unknown i)): %s", id, m), r, m)
 		}
 	})
 }
